@@ -404,26 +404,64 @@ func (b *b1) checkInvariant(sc interface {
 		k := cs.Call.Args[0]
 		ok := false
 		why := ""
+		// the callback handed to rawUserTypes.Each*: a literal, or a declared function or
+		// method every reference to which is such an argument
+		var cbParams *ast.FieldList
 		if cs.Lit != nil {
-			if id, isId := ast.Unparen(k).(*ast.Ident); isId && paramIndex(cs, info, info.ObjectOf(id)) == 0 {
-				// literal passed to rawUserTypes.Each*
-				passed := false
-				ast.Inspect(cs.Decl.Body, func(n ast.Node) bool {
-					call, isCall := n.(*ast.CallExpr)
-					if isCall && rawEach[Callee(info, call)] {
-						for _, a := range call.Args {
-							if a == cs.Lit {
-								passed = true
-							}
+			ast.Inspect(cs.Decl.Body, func(n ast.Node) bool {
+				call, isCall := n.(*ast.CallExpr)
+				if isCall && rawEach[Callee(info, call)] {
+					for _, a := range call.Args {
+						if a == cs.Lit {
+							cbParams = cs.Lit.Type.Params
 						}
 					}
-					return true
-				})
+				}
+				return true
+			})
+		} else if self := declObj(cs); self != nil && len(c.callSitesOf(self)) == 0 {
+			handed := 0
+			c.eachCall(func(up callSite) {
+				if !rawEach[Callee(up.Pk.TypesInfo, up.Call)] {
+					return
+				}
+				for _, a := range up.Call.Args {
+					var g *types.Func
+					switch x := ast.Unparen(a).(type) {
+					case *ast.Ident:
+						g, _ = up.Pk.TypesInfo.ObjectOf(x).(*types.Func)
+					case *ast.SelectorExpr:
+						g, _ = up.Pk.TypesInfo.ObjectOf(x.Sel).(*types.Func)
+					}
+					if g == self {
+						handed++
+					}
+				}
+			})
+			if handed > 0 {
+				cbParams = cs.Decl.Type.Params
+			}
+		}
+		if cbParams != nil {
+			pidx := -1
+			if id, isId := ast.Unparen(k).(*ast.Ident); isId {
+				n := 0
+				for _, fl := range cbParams.List {
+					for _, nm := range fl.Names {
+						if info.ObjectOf(nm) == info.ObjectOf(id) {
+							pidx = n
+						}
+						n++
+					}
+				}
+			}
+			if pidx == 0 {
+				passed := true
 				if passed {
 					// guarded by <value param>.BodyCoords.IsSet()
 					var vObj types.Object
 					n := 0
-					for _, fl := range cs.Lit.Type.Params.List {
+					for _, fl := range cbParams.List {
 						for _, nm := range fl.Names {
 							if n == 1 {
 								vObj = info.ObjectOf(nm)
